@@ -3,13 +3,13 @@ CONSTANTS
   PermuteModules = FALSE
   MaxFields = 2
   Addrs <- QAddrs
-  Sizes <- QSizes
-  Aligns <- QAligns
-  Palette <- QPalette
+  Sizes <- T3Sizes
+  Aligns <- T3Aligns
+  Palette <- T3Palette
   Ptrs = {4, 8}
   WithVft = {FALSE, TRUE}
-  WithPacked = {FALSE}
-  Names = {"f"}
+  WithPacked = {FALSE, TRUE}
+  Names = {"f", "_"}
 INVARIANTS Inv_RustDefined Replay
 CHECK_DEADLOCK FALSE
 VIEW View
